@@ -307,6 +307,10 @@ def verif_corpus_wf():
     for f in sorted(glob.glob(os.path.join(VERIF, "corpus", "wf", "*.hex"))):
         hx = "".join(open(f).read().split())
         out.append(("corpus/wf/" + os.path.basename(f)[:-4], bytes.fromhex(hx)))
+    for f in sorted(glob.glob(os.path.join(VERIF, "corpus", "wf", "*.zhex"))):
+        import zlib
+        hx = "".join(open(f).read().split())
+        out.append(("corpus/wf/" + os.path.basename(f)[:-5], zlib.decompress(bytes.fromhex(hx))))
     return out
 
 
